@@ -268,7 +268,7 @@ def main():
     def oracle_of(r):
         """'1' / '0' / 'na' — the property predicate on the implementation's observation"""
         if "need" in cfg:
-            if r.get("intent") != "1":
+            if cfg.get("need_intent", True) and r.get("intent") != "1":
                 return "na"
             sub = subdict(r.get("sub"))
             return "1" if all(sub.get(k) == "1" for k in cfg["need"]) else "0"
@@ -286,6 +286,7 @@ def main():
     failing = []       # (case, res) with holds=0
     disagreeing = []   # (case, res) with projected agree=0
     batch_info = []
+    known_all = [f for f in load_known() if f.get("property") == pid and f.get("status") == "finding"]
     if pdetail.get("driver_ok", True) and os.path.exists(DRIVER):
         for b in batches:
             rows, secs = run_batch(pid, b, seed, tier)
@@ -302,7 +303,8 @@ def main():
                     agree += 1
                 elif a == "0":
                     disagree += 1
-                    disagreeing.append((case_line, r))
+                    if not any(matches_finding(f, r, case_line) for f in known_all):
+                        disagreeing.append((case_line, r))
                 h = r["_oracle"]
                 if h == "1":
                     holds_true += 1
